@@ -448,6 +448,11 @@ func (s *SendStream) SetReliableBoundary() {
 	s.mutex.Lock()
 	defer s.mutex.Unlock()
 
+	// Once the stream has been reset (by CancelWrite, or by a STOP_SENDING frame from the peer),
+	// the reliable size was already fixed in the RESET_STREAM(_AT) frame, and can't be changed.
+	if s.resetErr != nil {
+		return
+	}
 	s.reliableSize = s.writeOffset
 	if s.nextFrame != nil {
 		s.reliableSize += s.nextFrame.DataLen()
